@@ -21,6 +21,9 @@ func checkC05(c *Ctx) {
 	c.checkRootInEveryShard("O1 root-in-every-shard")
 	c.checkKeyBytesFaithful("O3 byte-faithful-key")
 	c.checkShardFromKey("O1 shard-from-key")
+	// every derivation is resolved by the registry: a shortcut that hands back the receiver (or any scope
+	// not looked up by key) merges identities that differ (shared with C07 O4)
+	c.checkDerivationThroughRegistry("O1 through-registry")
 	// the tags a scope carries are the tags its key was built from: right-most map wins in the merge
 	// exactly as in the key writer (shared with C04 O3)
 	if merge := c.fn("", "", "mergeRightTags"); merge != nil {
